@@ -356,6 +356,8 @@ func propC01(c *Ctx) {
 		rra := c.Rule("reset-always", "the function that prepares the optimizer's evaluator empties its symbol table on every path (reset or a new table) before the builtin states are inherited", 1)
 		ruleResetAlways(c, rra, roles)
 	}
+	rccf := c.Rule("const-cache-float", "a Float constant reaches the value-keyed constant cache only after the sign of a zero has been examined (0.0 and -0.0 are one map key; the optimizer folds -0.0 into a literal, the plain compiler negates at run time)", 1)
+	ruleConstCacheFloat(c, rccf)
 	rla := c.Rule("assign-lhs-all", "the optimizer registers every target of an assignment / definition as shadowing: the registering loop is bounded by the length of the left-hand side", 1)
 	ruleAssignLHSAll(c, rla)
 	rsd := c.Rule("shadow-define", "every symbol-table definer records that the name shadows a builtin (the compiler-side source of the evaluator's shadow set)", 4)
